@@ -8,6 +8,14 @@
 #include "sched.hpp"
 
 namespace sim {
+namespace xfer {
+Plan generate(const std::string& mode, uint64_t seed, uint64_t run);
+Outcome execute(const Plan& plan);
+}  // namespace xfer
+namespace sink {
+Plan generate(const std::string& mode, uint64_t seed, uint64_t run);
+Outcome execute(const Plan& plan);
+}  // namespace sink
 namespace conc {
 
 using namespace ArduinoJson;
@@ -72,7 +80,18 @@ void buildShared(JsonVariant dst, const Val& v) {
 struct TaskSpec {
   Plan plan;
   hist::Options opt;
+  std::string family = "hist";
 };
+
+// one execution of a task's plan on the calling thread; returns the hash of its observables
+uint64_t runTask(const TaskSpec& ts) {
+  if (ts.family == "hist")
+    return hist::runForObs(ts.plan, ts.opt);
+  Outcome o = ts.family == "xfer" ? xfer::execute(ts.plan) : sink::execute(ts.plan);
+  if (!o.ok)
+    throw Violation(o.cls, o.msg);
+  return o.obs;
+}
 
 std::vector<TaskSpec> tasksOf(const Plan& plan, const JsonDocument* shared, const Val& sharedModel) {
   // the plan is a header, then per task a line "op=task id=<n> …options" followed by that task's hist operations,
@@ -82,6 +101,11 @@ std::vector<TaskSpec> tasksOf(const Plan& plan, const JsonDocument* shared, cons
     if (op.name() == "task") {
       TaskSpec ts;
       ts.plan.head = op;
+      ts.family = op.str("family", "hist");
+      if (ts.family != "hist") {
+        tasks.push_back(ts);
+        continue;
+      }
       ts.plan.head.set("family", "hist").set("mode", "free");
       ts.opt = hist::optionsOf(ts.plan.head);
       ts.opt.mode = "free";
@@ -130,7 +154,7 @@ Outcome execute(const Plan& plan) {
               mergeStats();
             }
           } m;
-          sinkObs[i] = hist::runForObs(specs[i].plan, specs[i].opt);
+          sinkObs[i] = runTask(specs[i]);
         });
       return fs;
     };
@@ -349,12 +373,26 @@ Plan generate(const std::string& mode, uint64_t seed, uint64_t run) {
   p.head.setu("np", r.chance(1, 4) ? 1 + r.below(4) : 4 + r.below(60));
   p.head.set("dense", r.chance(1, 2) ? 1 : 0);
   for (size_t i = 0; i < ntasks; i++) {
-    Plan sub = hist::generate("conc", r.next(), run);
+    unsigned sel = unsigned(r.below(100));
     Op task = mkop("task");
     task.set("id", int64_t(i));
-    for (auto& kv : sub.head.kv)
-      if (kv.first == "docs" || kv.first == "share" || kv.first == "move" || kv.first == "srcseed")
-        task.set(kv.first, kv.second);
+    Plan sub;
+    if (sel < 60 || i == 0) {
+      sub = hist::generate("conc", r.next(), run);
+      for (auto& kv : sub.head.kv)
+        if (kv.first == "docs" || kv.first == "share" || kv.first == "move" || kv.first == "srcseed")
+          task.set(kv.first, kv.second);
+    } else if (sel < 85) {
+      // bytes travelling in through every reader kind (streams included)
+      static const char* modes[] = {"valid", "valid", "any", "stream", "filter", "mpprefix"};
+      std::string m = modes[r.below(6)];
+      sub = xfer::generate(m, r.next(), run);
+      task.set("family", "xfer").set("mode", m);
+    } else {
+      std::string m = r.chance(1, 2) ? "json" : "mp";
+      sub = sink::generate(m, r.next(), run);
+      task.set("family", "sink").set("mode", m);
+    }
     p.ops.push_back(task);
     for (auto& op : sub.ops)
       p.ops.push_back(op);
